@@ -41,9 +41,9 @@ func execLine(lhs string) (out string) {
 }
 
 var executors = map[string]func([]string) string{}
-var generators = map[string]func(r *RNG, n int, op string, emit func(string)){
-	"codec": genCodec,
-}
+var generators = map[string]func(r *RNG, n int, op string, emit func(string)){}
+
+func init() { generators["codec"] = genCodec }
 
 func main() {
 	if len(os.Args) < 2 {
